@@ -117,32 +117,14 @@ def macByLimb : List Nat → List Nat → Nat → Nat → List Nat × Nat
   | _, _, _, carry => ([], carry)
 
 /-- the reduction of the double-width product `(lo, hi)` by HAC 14.47 as the crate writes it.
-    `incr` is the limb operation used for `carry.0 + 1`: the release build wraps
-    (`wadd · 1`), see `mulModSpecialOverflows` for the profile with overflow checks. -/
+    The increment is done in the wide type (`(carry.0 as WideWord + 1) * c.0 as WideWord`, /repo
+    commit a301fd3), so it cannot overflow: `(MAX + 1)·MAX` still fits the wide word. -/
 def specialReduce (lo hi : List Nat) (c : Nat) : List Nat :=
-  let m := macByLimb lo hi c 0
-  let rhs := (wadd m.2 1) * c                    -- `(carry.0 + 1) as WideWord * c.0 as WideWord`
-  let s := uadc m.1 (fromWideWord lo.length rhs) 0
-  let rhs2 := (wsub s.2 1) &&& c
-  (usbb s.1 (fromWord lo.length rhs2) 0).1
-
-/-- the same reduction with the proposed repair (`(carry.0 as WideWord + 1) * c`, notes/C07.md):
-    the increment is done in the wide type and cannot overflow.  Not what /repo computes today;
-    kept next to the mirror so that the repair is proved, not just suggested. -/
-def specialReduceRepaired (lo hi : List Nat) (c : Nat) : List Nat :=
   let m := macByLimb lo hi c 0
   let rhs := (m.2 + 1) * c
   let s := uadc m.1 (fromWideWord lo.length rhs) 0
   let rhs2 := (wsub s.2 1) &&& c
   (usbb s.1 (fromWord lo.length rhs2) 0).1
-
-/-- `mul_mod_special` with the repaired reduction. -/
-def mulModSpecialRepaired (a b : List Nat) (c : Nat) : List Nat :=
-  if a.length = 1 then
-    [(a.headD 0 * b.headD 0) % (wsub 0 c)]
-  else
-    let prod := val a * val b
-    specialReduceRepaired (toLimbs a.length prod) (toLimbs a.length (prod / B ^ a.length)) c
 
 /-- `Uint::mul_mod_special`.  `LIMBS == 1`: `mul_rem(a, b, 0 - c)` (exact remainder: C02);
     otherwise `split_mul` (exact product: C03) followed by the reduction above. -/
@@ -154,16 +136,6 @@ def mulModSpecial (a b : List Nat) (c : Nat) : List Nat :=
     let lo := toLimbs a.length prod
     let hi := toLimbs a.length (prod / B ^ a.length)
     specialReduce lo hi c
-
-/-- the condition under which `carry.0 + 1` (src/uint/mul_mod.rs:62) overflows: the build with
-    overflow checks panics there, the release build wraps to `0`. -/
-def mulModSpecialOverflows (a b : List Nat) (c : Nat) : Bool :=
-  if a.length = 1 then false
-  else
-    let prod := val a * val b
-    let lo := toLimbs a.length prod
-    let hi := toLimbs a.length (prod / B ^ a.length)
-    (macByLimb lo hi c 0).2 + 1 == B
 
 /-! ### `mul_mod` (Montgomery route) and `mul_mod_vartime` — value level -/
 
@@ -282,7 +254,7 @@ def bMulModSpecial (a b : List Nat) (c : Nat) : List Nat :=
     let lo := prod.take a.length
     let hi := prod.drop a.length
     let m := macByLimb lo hi c 0
-    let rhs := (wadd m.2 1) * c
+    let rhs := (m.2 + 1) * c
     let s := bAdc m.1 (toLimbs 2 rhs) 0
     let rhs2 := (wsub s.2 1) &&& c
     (bSbb s.1 [rhs2] 0).1
